@@ -2,13 +2,15 @@
 import PgModel.Json
 import PgModel.Evo
 import PgModel.EvoPerm
+import PgModel.EvoNum
 open Pg Pg.C14
 
 def qOfJ : J → Option Q
-  | .arr [.int m, .int e] => some ⟨m, e.toNat⟩
+  | .arr [.int m, .int e] => some (mkRat m (2 ^ e.toNat))
   | _ => none
 
-def qToJ (q : Q) : J := .arr [.int q.num, .int q.exp]
+/-- rationals leave as `["q", num, den]` (reduced). -/
+def qToJ (q : Q) : J := .arr [.str "q", .int q.num, .int q.den]
 
 partial def specOfJ : J → Option GSpec
   | .arr [.str "space", .arr es] => do pure (.space (← es.mapM specOfJ))
@@ -113,6 +115,8 @@ def primOfJ (g : GSpec) (fuel : Nat) : List J → Option Op
   | [.str "recSample"] => some (recPointWise true fuel g)
   | [.str "recKPoint", .int k] => some (recKPoint g k.toNat)
   | [.str "recOrder"] => some (recOrder g)
+  | [.str "recAverage"] => some (recNumeric none g)
+  | [.str "recWeightedAverage"] => some (recNumeric (some harnessWeights) g)
   | [.str "recSegmented", .arr cuts] => do pure (recSegmented g (← cuts.mapM J.asNat?))
   | _ => none
 
